@@ -1,36 +1,94 @@
-"""C19 cases: num_traits FromPrimitive / ToPrimitive / AsPrimitive."""
+"""C19 cases: num_traits FromPrimitive / ToPrimitive / AsPrimitive.
+
+Request vocabulary: lean/Bnum/Drive/C19.lean (header) = harness/src/bin/c19.rs.
+  * every float request carries a build-mode token and is sent once per mode (`dbg` to the debug
+    build and the `dbg = true` model, `rel` to the release build and the `dbg = false` model);
+  * all four `AsPrimitive` impl families of src/int/numtraits.rs: bnum -> primitive (`as_<prim>`,
+    `as_f32/f64`), primitive / char / bool / float -> bnum (`as_from_*`), bnum -> bnum of the same
+    digit type (`as_big`);
+  * every configuration of the tier (no digit-count cut-off) plus, in BOTH tiers, the widest in-scope
+    instantiation of every digit type (8192 bits) with a few cases per operation.
+"""
 from .common import *
 from .c14 import float_case, int_case, FMT, exponent_sweep, bound_fractions
 
 PRIMS = {"u8": 8, "u16": 16, "u32": 32, "u64": 64, "u128": 128, "usize": 64,
          "i8": 8, "i16": 16, "i32": 32, "i64": 64, "i128": 128, "isize": 64}
 
+# widest in-scope instantiation of each digit type (8192 bits); all four are harness configurations
+WIDE = ["8x1024", "16x512", "32x256", "64x128"]
+# digit counts per digit width for `as_big` (= the size lists of `run_as_big` in harness/src/bin/c19.rs)
+BIG_SIZES = {8: [1, 2, 3, 17, 1024], 16: [1, 3, 5, 512], 32: [2, 3, 6, 256], 64: [1, 2, 3, 8, 128]}
+MODES = ("dbg", "rel")
+CHARS = (0, 0x41, 0x7f, 0x80, 0xff, 0x100, 0xd7ff, 0xe000, 0xffff, 0x10000, 0x10ffff)
 
-def prim_value(rng, p, W, tsigned):
+
+def prim_range(p):
+    b = PRIMS[p]
+    return ((-(1 << (b - 1)), (1 << (b - 1)) - 1) if p[0] == "i" else (0, (1 << b) - 1))
+
+
+def prim_digit_window(rng, p, w, n):
+    """a primitive whose only non-zero (for negatives: only non-0xff..) w-bit digit sits at index j, for j around
+    the digit count n of the target (n-1: last stored digit, n / n+1 / top digit of the primitive: must be
+    rejected) — optionally with arbitrary digits below it"""
+    b = PRIMS[p]
+    k = max(1, b // w)
+    j = max(0, min(k - 1, rng.choice([n - 1, n, n, n + 1, k - 1, rng.randrange(k)])))
+    d = rng.choice([1, (1 << w) - 1, 1 << (w - 1), (1 << (w - 1)) - 1, rng.randrange(1, 1 << w)])
+    v = d << (w * j)
+    if rng.random() < 0.4 and j > 0:
+        v |= rng.randrange(1 << (w * j))
+    v = pat(v, b)
+    if p[0] == "i" and rng.random() < 0.5:
+        v = pat(~v, b)
+    return "prim-digit-window", v
+
+
+def prim_value(rng, p, W, tsigned, w=8, n=1):
     """pattern of primitive p at the bnum target's boundaries"""
     b = PRIMS[p]
-    ps = p[0] == "i"
     dmax = (1 << (W - 1)) - 1 if tsigned else (1 << W) - 1
     dmin = -(1 << (W - 1)) if tsigned else 0
-    smax = (1 << (b - 1)) - 1 if ps else (1 << b) - 1
-    smin = -(1 << (b - 1)) if ps else 0
-    c = rng.randrange(8)
+    smin, smax = prim_range(p)
+    c = rng.randrange(10)
     if c < 5:
         z = rng.choice([dmax, dmax + 1, dmin, dmin - 1, 0, 1, -1, smax, smin, dmax - 1])
         z = max(smin, min(smax, z))
         return "boundary", pat(z, b)
+    if c < 7:
+        return prim_digit_window(rng, p, w, n)
     t, v = value(rng, 8, b // 8)
     return t, v
+
+
+def padding_disturbed(rng, w, n, p):
+    """a value that FITS primitive p (sign-extended to the bnum width) in which exactly one digit above the
+    primitive's width — the first one, the top one, or any — or only the bnum's sign bit is changed"""
+    W = w * n
+    b = PRIMS[p]
+    pmin, pmax = prim_range(p)
+    z = rng.choice([pmax, pmin, -1, 0, 1, pmin + 1, pmax - 1, rng.randrange(pmin, pmax + 1)])
+    v = pat(z, W)
+    first = max(1, -(-b // w))
+    c = rng.randrange(6)
+    if c == 0:
+        return "sign-bit-disturbed", v ^ (1 << (W - 1))
+    if first >= n:
+        # the primitive covers every digit: disturb a bit above the primitive's width, if there is one
+        if W > b:
+            return "padding-disturbed", v ^ (1 << rng.randrange(b, W))
+        return "boundary", v
+    j = rng.choice([first, n - 1, rng.randrange(first, n)])
+    d = rng.choice([1, 1 << (w - 1), (1 << w) - 1, rng.randrange(1, 1 << w)])
+    return "padding-disturbed", v ^ (d << (w * j))
 
 
 def big_value(rng, w, n, p):
     """bnum value at the primitive's boundaries"""
     W = w * n
-    b = PRIMS[p]
-    ps = p[0] == "i"
-    pmax = (1 << (b - 1)) - 1 if ps else (1 << b) - 1
-    pmin = -(1 << (b - 1)) if ps else 0
-    c = rng.randrange(10)
+    pmin, pmax = prim_range(p)
+    c = rng.randrange(12)
     if c < 4:
         z = rng.choice([pmax, pmax + 1, pmin, pmin - 1, 0, -1, 1, pmax - 1])
         return "boundary", pat(z, W)
@@ -39,39 +97,154 @@ def big_value(rng, w, n, p):
         low = pat(rng.choice([pmax, pmin, -1, 0, 1, pmin + 1, rng.randrange(pmin, pmax + 1)]), w)
         hi = rng.choice([0, (1 << (W - w)) - 1, 1, rng.randrange(1 << (W - w))])
         return "low-digit-decoy", (hi << w) | low
+    if c < 8:
+        return padding_disturbed(rng, w, n, p)
     return value(rng, w, n)
 
 
+def limit_floats(fmt, W):
+    """floats at the limits of a W-bit target: (1 + m·ulp)·2^k for k in W-2 .. W+1, m in {0, 1, max}, both signs
+    (2^(W-1) and 2^W themselves, their float neighbours; -2^(W-1) = MIN is the one negative value of that
+    magnitude that is representable)"""
+    p, eb, bits = FMT[fmt]
+    mb = p - 1
+    bias = (1 << (eb - 1)) - 1
+    out = []
+    for k in (W - 2, W - 1, W, W + 1):
+        e = k + bias
+        if not 1 <= e <= (1 << eb) - 2:
+            continue
+        for m in (0, 1, (1 << mb) - 1):
+            for sign in (0, 1):
+                out.append((sign << (bits - 1)) | (e << mb) | m)
+    return out
+
+
+def wide_sweep(rng, fmt, W):
+    """exponent sweep for the 8192-bit targets: a sample of the exponents, the top binades of the format (the
+    longest shifts the conversion performs), zero / subnormal / inf / nan"""
+    p, eb, bits = FMT[fmt]
+    mb = p - 1
+    emaxf = (1 << eb) - 1
+    exps = sorted(set(rng.sample(range(1, emaxf), 40) + list(range(emaxf - 10, emaxf + 1)) + [0, 1]))
+    for e in exps:
+        for sign in (0, 1):
+            m = rng.choice([0, 1, (1 << mb) - 1, rng.randrange(1 << mb)])
+            yield (sign << (bits - 1)) | (e << mb) | m
+
+
+def fl(op, cfg, arg, tag):
+    """one float request per build mode"""
+    for mode in MODES:
+        yield f"{op} {cfg} {mode} {arg}", tag
+
+
+def dst_boundary(rng, sW, ssigned, dW):
+    """source patterns at the limits of a dW-bit target (both signednesses of the target)"""
+    k = min(sW, dW)
+    c = rng.randrange(5)
+    if c == 0:
+        return "attop", pat((1 << (k - 1)) + rng.randrange(-2, 3), sW)
+    if c == 1:
+        return "atmod", pat((1 << k) + rng.randrange(-2, 3), sW)
+    if c == 2:
+        return "neg-attop", pat(-(1 << (k - 1)) + rng.randrange(-2, 3), sW)
+    if c == 3:
+        j = rng.randrange(1, sW + 1)
+        return "signrun", pat(-(1 << (j - 1)) - rng.randrange(0, 3), sW)
+    j = rng.randrange(0, sW)
+    return "posrun", pat((1 << j) - 1, sW)
+
+
+def gen_as_big(rng, tier):
+    """`AsPrimitive<BUint<M>>` / `AsPrimitive<BInt<M>>` for `BUint<N>` / `BInt<N>`: every ordered pair of digit
+    counts of BIG_SIZES, all four signedness combinations (widening with zero / sign extension, same size,
+    truncation; 8192-bit source and / or target)"""
+    reps = 10 if tier == "thorough" else 4
+    for w, sizes in BIG_SIZES.items():
+        for n in sizes:
+            for m in sizes:
+                for ss in "ui":
+                    for ds in "ui":
+                        src, dst = f"{ss}{w}x{n}", f"{ds}{w}x{m}"
+                        sW, dW = w * n, w * m
+                        for _ in range(reps):
+                            t, v = value(rng, w, n)
+                            yield f"as_big {src} {dst} {hx(v)}", t
+                            t, v = dst_boundary(rng, sW, ss == "i", dW)
+                            yield f"as_big {src} {dst} {hx(v)}", t
+                        for z in ((1 << (sW - 1)), (1 << sW) - 1, (1 << (min(sW, dW) - 1)) - 1):
+                            yield f"as_big {src} {dst} {hx(pat(z, sW))}", "pair-boundary"
+
+
 def gen(rng, tier):
-    for cfg in ["8x1", "16x1", "64x2", "8x17"] + (["32x3", "64x16"] if tier == "thorough" else []):
+    thorough = tier == "thorough"
+    # --- one float per exponent value, narrow to mid-size targets (every branch on the decoded exponent)
+    for cfg in ["8x1", "16x1", "64x2", "8x17", "32x3"] + (["64x16", "16x5", "8x64"] if thorough else []):
         w, n = wn(cfg)
         for s in "ui":
             for fmt in ("f32", "f64"):
                 for f in exponent_sweep(rng, fmt, w * n):
-                    yield f"nt_from_{fmt} {s}{cfg} {hx(f)}", "exponent-sweep"
-    reps = 60 if tier == "thorough" else 30
-    for cfg in cfgs(tier):
+                    yield from fl(f"nt_from_{fmt}", s + cfg, hx(f), "exponent-sweep")
+    # --- 1024 bits (the f64 range ends inside the type) and the 8192-bit types: sampled sweep
+    for cfg in ["64x16"] + WIDE:
+        w, n = wn(cfg)
+        for s in "ui":
+            for fmt in ("f32", "f64"):
+                for f in wide_sweep(rng, fmt, w * n):
+                    yield from fl(f"nt_from_{fmt}", s + cfg, hx(f), "wide-sweep")
+                    if rng.random() < 0.25:
+                        yield from fl(f"as_from_{fmt}", s + cfg, hx(f), "wide-sweep")
+    reps = 60 if thorough else 24
+    seen = set()
+    for cfg in list(cfgs(tier)) + WIDE:
+        if cfg in seen:
+            continue
+        seen.add(cfg)
         w, n = wn(cfg)
         W = w * n
-        if n > 40:
-            continue
-        if W <= 64:
-            for s in "ui":
-                for fmt in ("f32", "f64"):
-                    for f in bound_fractions(fmt, W):
-                        yield f"nt_from_{fmt} {s}{cfg} {hx(f)}", "bound-fraction"
-        for _ in range(reps):
+        for s in "ui":
+            for fmt in ("f32", "f64"):
+                fs = list(limit_floats(fmt, W))
+                tag = "limit-float"
+                if W <= 64:
+                    fs += bound_fractions(fmt, W)
+                    tag = "bound-fraction"
+                for f in fs:
+                    yield from fl(f"nt_from_{fmt}", s + cfg, hx(f), tag)
+                for f in limit_floats(fmt, W):
+                    yield from fl(f"as_from_{fmt}", s + cfg, hx(f), "limit-float")
+            yield f"as_from_bool {s}{cfg} 0", "bool"
+            yield f"as_from_bool {s}{cfg} 1", "bool"
+            for c in CHARS + (rng.randrange(0xd800), rng.randrange(0xe000, 0x110000)):
+                yield f"as_from_char {s}{cfg} {hx(c)}", "char"
+        for _ in range(reps if n <= 40 else 6):
             for s in "ui":
                 for p in PRIMS:
-                    t, v = prim_value(rng, p, W, s == "i")
+                    t, v = prim_value(rng, p, W, s == "i", w, n)
                     yield f"from_{p} {s}{cfg} {hx(v)}", t
+                    t, v = prim_value(rng, p, W, s == "i", w, n)
+                    yield f"as_from_{p} {s}{cfg} {hx(v)}", t
                     t, a = big_value(rng, w, n, p)
                     yield f"to_{p} {s}{cfg} {hx(a)}", t
                     t, a = big_value(rng, w, n, p)
                     yield f"as_{p} {s}{cfg} {hx(a)}", t
                 for fmt in ("f32", "f64"):
                     t, f = float_case(rng, fmt, W)
-                    yield f"nt_from_{fmt} {s}{cfg} {hx(f)}", t
+                    yield from fl(f"nt_from_{fmt}", s + cfg, hx(f), t)
+                    t, f = float_case(rng, fmt, W)
+                    yield from fl(f"as_from_{fmt}", s + cfg, hx(f), t)
                     t, a = int_case(rng, w, n, FMT[fmt][0])
-                    yield f"nt_to_{fmt} {s}{cfg} {hx(a)}", t
-                    yield f"as_{fmt} {s}{cfg} {hx(a)}", t
+                    yield from fl(f"nt_to_{fmt}", s + cfg, hx(a), t)
+                    yield from fl(f"as_{fmt}", s + cfg, hx(a), t)
+    yield from gen_as_big(rng, tier)
+    if thorough:
+        # complete enumeration of the 8-bit instantiation (a test, not the proof)
+        for s in "ui":
+            for a in range(256):
+                for p in PRIMS:
+                    yield f"to_{p} {s}8x1 {hx(a)}", "enum8"
+                    yield f"as_{p} {s}8x1 {hx(a)}", "enum8"
+                for p in ("u8", "i8"):
+                    yield f"from_{p} {s}8x1 {hx(a)}", "enum8"
+                    yield f"as_from_{p} {s}8x1 {hx(a)}", "enum8"
